@@ -6,7 +6,10 @@ from vlib import Check, VERIF
 
 META = {
     "engine": "E1+E2+E3+E4",
-    "text": "Coq theorems over an interleaving model of ConcurrentTransientTopic (publish/publish_n, close, "
+    "text": "The end marker's slot is accessible for every number of published items incl. 128*k, where it is the first "
+            "slot of an untouched block (c15_close_marker_slot_accessible; close()'s accessor is regenerated; programs "
+            "closing at block boundaries before any consumer asks are executed).  "
+            "Coq theorems over an interleaving model of ConcurrentTransientTopic (publish/publish_n, close, "
             "Consumer::consume single and batch, subscribe, clear) at atomic-operation granularity, for every client "
             "program, every number of publisher and consumer threads and every schedule: a consumer has received "
             "exactly the first `cursor` items of the publication-index order (each once, in order, with the value "
@@ -60,6 +63,10 @@ AIMED_BIG = [
     "N3,X,B,B,N2,P,X,B,B,P,X|L2,B,B,S,L2,B,B,S,L1|B,Z,B,S,L5,B,Z,B,S,L1|C1,B,B,S,C2,L1,B,B,S,c,c",
     "N129,X,B,B,N3,X|L128,B,B,S,L2|B,Z,B,S,L130|L7,B,B,S,L1",
     "P,P,P,P,P,P,X|L1|L2|L3|c,c,c,c,c,c,c",
+    # close() when exactly 128*k items were published and no consumer has asked for the marker's slot yet: the marker
+    # is the first slot of an untouched block
+    "N128,X,B|B,L5", "N127,P,X,B|B,L64|B,L129", "N128,N128,X,B|B,L300|B,L7",
+    "N128,X,B,B,B,N128,X,B|B,L128,B,B,S,B,L3|B,B,Z,B,S,B,L130",
 ]
 
 
